@@ -138,7 +138,7 @@ func (e *c14Env) judgeEmitted(conn *c14Conn, via string, reqs []int) *c14Viol {
 	seen := map[int]bool{}
 	for _, t := range reqs {
 		if seen[t] {
-			return &c14Viol{"duplicate-in-one-message/" + via, fmt.Sprintf("tx%d requested twice at once from %s", t, conn.name)}
+			return &c14Viol{"duplicate-in-one-burst/" + via, fmt.Sprintf("tx%d requested twice at once from %s (%d requests in the burst)", t, conn.name, len(reqs))}
 		}
 		seen[t] = true
 		if e.haveBody[t] {
@@ -255,6 +255,7 @@ func TestVerif_C14(t *testing.T) {
 	rep.Assumptions = []string{"virtual time = ageing MemPool.requests through an overlay accessor; the window is probed outside 3 s +/- 0.1 s", "body arrival re-issues the first two calls of processUnconfirmedTx"}
 	defer rep.Write()
 
+	c14Bulk(rep)
 	ages := []float64{0.5, 1, 2, 2.5, 3.5, 4}
 	n := verifkit.N(6000, 500000)
 	for ci := 0; ci < n; ci++ {
@@ -339,6 +340,33 @@ func TestVerif_C14(t *testing.T) {
 		if rep.WantSample() {
 			rep.Sample(map[string]interface{}{"case": ci, "ops": fmt.Sprint(ops)})
 		}
+	}
+}
+
+// bulk family: more txids than fit one getdata batch (100) are tracked by a connection when their
+// window expires; the messages are kept by reference, as the node's outgoing queue does.
+func c14Bulk(rep *verifkit.Report) {
+	n := verifkit.N(24, 600)
+	for ci := 0; ci < n; ci++ {
+		if !verifkit.Mine(ci) {
+			continue
+		}
+		r := verifkit.Rand("C14/bulk", ci)
+		ntx := []int{99, 100, 101, 102, 150, 201, 203, 250, 305}[r.Intn(9)]
+		e := newC14Env(3, ntx)
+		all := r.Perm(ntx)
+		ops := []c14Op{{Op: "inv", Conn: 0, Txs: all}, {Op: "inv", Conn: 1, Txs: r.Perm(ntx)},
+			{Op: "inv", Conn: 2, Txs: r.Perm(ntx)[:1+r.Intn(ntx)]}, {Op: "age", Sec: 3.5}, {Op: "check", Conn: 1},
+			{Op: "age", Sec: 1}, {Op: "check", Conn: 2}, {Op: "age", Sec: 2.5}, {Op: "check", Conn: 2}, {Op: "check", Conn: 0}}
+		for _, op := range ops {
+			rep.Event("bulk_op:"+op.Op, 1)
+			if v := e.apply(op); v != nil {
+				rep.Finding(ci, "C14/"+v.rule+"/bulk", fmt.Sprintf("%s | bulk scenario with %d txids: c0 asked, c1 and c2 told to wait, windows expire, checks", v.detail, ntx), map[string]interface{}{"ntx": ntx})
+				break
+			}
+		}
+		rep.Event("bulk_requests_judged", int64(len(e.lastReq)))
+		rep.Case(fmt.Sprintf("bulk%d", ntx), true)
 	}
 }
 
